@@ -87,8 +87,38 @@ static void run_sub_entry_throws() {
   report("sub-entry-throws.not-wedged", !escaped && r == 0 && g_log == "I.entry CAUGHT | j NT " && (r2 & 1) && !(r3 & 1), "C12,C04",
          "r=" + std::to_string(r) + " r2=" + std::to_string(r2) + " r3=" + std::to_string(r3) + " log=[" + g_log + "]");
 }
+// ---- a transition INSIDE an active submachine throws while the parent is dispatching the event: the submachine (the level that
+// processed the transition) catches it, its exception_caught runs once, the enclosing machine may still react with its own row, and the
+// submachine is not wedged afterwards (C12) ----
+struct boom {};
+struct SubT_ : state_machine_def<SubT_> {
+  struct I : state<> {}; struct J : state<> {};
+  typedef I initial_state;
+  struct ActThrow { template<class E,class F,class S,class T> void operator()(E const&,F&,S&,T&){ g_log += "THROW "; throw std::runtime_error("inner"); } };
+  struct ActJ { template<class E,class F,class S,class T> void operator()(E const&,F&,S&,T&){ g_log += "j "; } };
+  struct transition_table : mpl::vector< Row<I,boom,J,ActThrow,none>, Row<I,ev2,J,ActJ,none> > {};
+  template<class F,class Ev> void no_transition(Ev const&,F&,int){ g_log += "NTsub "; }
+  template<class F,class Ev> void exception_caught(Ev const&,F&,std::exception&){ g_log += "CAUGHTsub "; }
+};
+typedef BE<SubT_> SubT;
+struct TopT_ : state_machine_def<TopT_> {
+  struct ActOuter { template<class E,class F,class S,class T> void operator()(E const&,F&,S&,T&){ g_log += "outer "; } };
+  typedef SubT initial_state;
+  struct transition_table : mpl::vector< Row<SubT,boom,none,ActOuter,none> > {};
+  template<class F,class Ev> void no_transition(Ev const&,F&,int){ g_log += "NT "; }
+  template<class F,class Ev> void exception_caught(Ev const&,F&,std::exception&){ g_log += "CAUGHT "; }
+};
+typedef BE<TopT_> TopT;
+static void run_throw_inside_submachine() {
+  TopT m; m.start(); g_log.clear();
+  bool escaped = false; int r = -1, r2 = -1; try { r = (int)m.process_event(boom()); } catch (...) { escaped = true; }
+  g_log += "| "; try { r2 = (int)m.process_event(ev2()); } catch (...) { escaped = true; }
+  report("throw-inside-submachine.caught-at-its-level-outer-may-react-not-wedged", !escaped && g_log == "THROW CAUGHTsub outer | j " && (r & 1) && (r2 & 1), "C12,C07,C13",
+         "r=" + std::to_string(r) + " r2=" + std::to_string(r2) + " escaped=" + std::to_string(escaped) + " log=[" + g_log + "]");
+}
 int main(int argc, char** argv) {
   if (argc > 1) g_only = argv[1];
+  run_throw_inside_submachine();
   run<msm::active_state_switch_after_entry>("after_entry", false);
   run<msm::active_state_switch_before_transition>("before_transition", true);
   run_sub_entry_throws();
